@@ -5,7 +5,7 @@ CONSTANTS
   AgeWin = 10
   MAXV = 1000000000
   PragueFrom = 275000
-  Base = 0
+  Base = 274994
 INVARIANT TraceInv
 POSTCONDITION TraceAccepted
 CHECK_DEADLOCK FALSE
